@@ -120,8 +120,10 @@ func c16Setup(c *vlib.Ctx, w int) (*env, bool) {
 }
 
 func checkC16(c *vlib.Ctx) {
-	c.Rule("per worker: cpu, mem, NetIO (+ HostInfo for the mixed-case family) in databases default and db2 (nullable int/float/string/bool columns, nullable tag, mixed-case column, a column present only in some files, 2 days x 4 hours, 3 flush rounds). Queries from a grammar: scalar/aggregate projections, SELECT *, DISTINCT, WHERE (comparisons, IN, LIKE, IS NULL, BETWEEN, OR, IN/scalar/EXISTS subqueries), GROUP BY/HAVING, total ORDER BY (+LIMIT), CTEs (named like measurements, shadowing the measurement they read, column lists, quoted names, chained), derived tables, every join kind (inner/left/right/full/cross/semi/anti/natural/asof/lateral/comma, ON/USING), set operations, EXTRACT/SUBSTRING/TRIM/POSITION bodies, literals containing SQL text, quoted and db-qualified names, random keyword case, whitespace (newline/tab/CRLF) and comments between any two tokens; each text is sent under several header settings and repeated (transform cache). Non-trivial = accepted by arc and compared.")
-	c.Rule("family 'mixed-case names' (enumerated, identical at every seed, 292 queries dealt to the workers): measurement NetIO | HostInfo x bare | double-quoted x no header | x-arc-database default | db2 x position: FROM (plain, aliased + WHERE), right-hand side of each of 13 join kinds, both sides, NATURAL self join, CTE + JOIN (CTE left / CTE right reading the measurement / join inside the CTE body), derived table + JOIN, IN-subquery, two joins; plus db2.M and \"default\".M in FROM and JOIN position; plain style (single spaces, no comments, varying keyword case)")
+	// vlib keeps ONE rule text: the three families are joined into it
+	c.Rule("per worker: cpu, mem, NetIO (+ HostInfo for the mixed-case family) in databases default and db2 (nullable int/float/string/bool columns, nullable tag, mixed-case column, a column present only in some files, 2 days x 4 hours, 3 flush rounds). Queries from a grammar: scalar/aggregate projections, SELECT *, DISTINCT, WHERE (comparisons, IN, LIKE, IS NULL, BETWEEN, OR, IN/scalar/EXISTS subqueries), GROUP BY/HAVING, total ORDER BY (+LIMIT), CTEs (named like measurements, shadowing the measurement they read, column lists, quoted names, chained), derived tables, every join kind (inner/left/right/full/cross/semi/anti/natural/asof/lateral/comma, ON/USING), set operations, EXTRACT/SUBSTRING/TRIM/POSITION bodies, literals containing SQL text, quoted and db-qualified names, random keyword case, whitespace (newline/tab/CRLF) and comments between any two tokens; each text is sent under several header settings and repeated (transform cache). Non-trivial = accepted by arc and compared." +
+		" || family 'mixed-case names' (enumerated, identical at every seed, 292 queries dealt to the workers): measurement NetIO | HostInfo x bare | double-quoted x no header | x-arc-database default | db2 x position: FROM (plain, aliased + WHERE), right-hand side of each of 13 join kinds, both sides, NATURAL self join, CTE + JOIN (CTE left / CTE right reading the measurement / join inside the CTE body), derived table + JOIN, IN-subquery, two joins; plus db2.M and \"default\".M in FROM and JOIN position; plain style (single spaces, no comments, varying keyword case)" +
+		fmt.Sprintf(" || family 'FROM-carrying builtins' (enumerated, identical at every seed, %d queries dealt to the workers): %d bodies of EXTRACT / SUBSTRING(.. FROM .. [FOR ..]) / TRIM([BOTH|LEADING|TRAILING] [x] FROM y) / OVERLAY(.. PLACING .. FROM ..) - plain; nested call / CAST / parenthesised arithmetic / another such builtin / a literal holding a parenthesis BEFORE the body's FROM; column | literal | call | CAST | parenthesised | column-led expression AFTER it and after FOR; wrapped in a call; two builtins in one expression - x unqualified | alias-qualified columns (t.col) x no header | x-arc-database x position: select list | WHERE | select list of a derived table; over cpu / mem; plain style without comments; a text the reference DuckDB rejects is discarded", len(genFBCases()), len(fbBodies)))
 	c.Assume("reference = the same SQL text on a private DuckDB (same library version) whose views \"db\".\"m\" (and bare m for the header / default database) read exactly the stored Parquet files with union_by_name")
 	c.Assume("measurement names are referenced in their stored case (arc's storage is case-sensitive by design); database `default` is written quoted when explicit because DEFAULT is reserved in DuckDB; float data are multiples of 0.25 so aggregates do not depend on summation order; SELECT * compares columns by name")
 	if c.Replay != "" {
@@ -139,7 +141,13 @@ func checkC16(c *vlib.Ctx) {
 		}(w)
 	}
 	wg.Wait()
-	c.Floor(c.N(300, 3000))
+	floor := c.N(700, 3400)
+	if n := c.Counter("fb_compared"); n < int64(len(genFBCases()))*2/3 {
+		// the enumerated FROM-carrying-builtin family must have been compared, not just sent
+		c.Extra("fb_family_floor_missed", fmt.Sprintf("only %d of %d FROM-carrying-builtin queries were compared", n, len(genFBCases())))
+		floor = 1 << 30
+	}
+	c.Floor(floor)
 }
 
 // hdrPlan: the header settings one text is sent under, in order. Bare-name texts are
@@ -179,6 +187,7 @@ func c16Worker(c *vlib.Ctx, w, n int) {
 	}
 	defer e.close()
 	c16MixedCaseFamily(c, e, w, 4)
+	c16FromBodyFamily(c, e, w, 4)
 	rng := c.Rand(fmt.Sprintf("c16-q-%d", w))
 	g := &c16Gen{rng: rng}
 	shrunk := 0
